@@ -20,7 +20,7 @@ LEVEL_TEXT = (
     "checked to 1e-6 s and upper bounds with 0.1 s slack; sampling, not proof. The strategy object is compared with the closed-form "
     "model on seeded histories (plus a bounded exhaustive supplement in the thorough tier)."
 )
-RUNS = {"quick": 120000, "thorough": 300000}
+RUNS = {"quick": 120000, "thorough": 4000000}
 CHUNK = {"quick": 100, "thorough": 500}
 BUDGET_S = {"quick": 90, "thorough": 1500}
 RULE = (
